@@ -113,6 +113,8 @@ class State:
         """load the scalar / pointer stored at location p."""
         exe = self.exe
         ct = p.ct
+        if isinstance(ct, TFn):         # a cell of function type is a function pointer (views of pointer tables in contract expressions)
+            ct = TPtr(ct)
         if p.obj is RAW:
             return exe.raw_load(self, p)
         if p.obj is None:
@@ -135,6 +137,20 @@ class State:
             if any(n is None for n in dims):
                 raise FrontEndError('symbolic index into cells-mode object of unknown size: %s' % p.obj.name)
             res = None
+            if isinstance(ct, TPtr) and isinstance(ct.to, TFn):
+                # a table of function pointers read at a symbolic index: the value is only ever tested against NULL (an
+                # indirect call through it is refused by the front end), so it is an opaque pointer whose null-ness is that
+                # of the selected cell
+                nul = None
+                for combo in itertools.product(*[range(n) for n in dims]):
+                    v = self.load(p.with_(idx=combo))
+                    cond = z3.And(*[i == exe.sem.idx_const(c) if not isinstance(i, int) else z3.BoolVal(i == c) for i, c in zip(p.idx, combo)])
+                    if nul is None:
+                        exe.nsym += 1
+                        nul = z3.Bool('isnull(oob %s #%d)' % (p.obj.name, exe.nsym))
+                    nul = z3.If(cond, v.isnull, nul)
+                o = exe.new_obj('fn@%s#%d' % (p.obj.name, exe.nsym), TInt(8, False, 'unsigned char'), n=1)
+                return Ptr(o, (0,), (), ct.to, isnull=nul)
             for combo in itertools.product(*[range(n) for n in dims]):
                 v = self.load(p.with_(idx=combo))
                 if isinstance(v, Ptr):
